@@ -52,9 +52,83 @@ pub struct Trig {
     f: fn(usize, u128) -> TOut,
 }
 
+/// Watchdog for loops that carry no tick() (e.g. added by a later change): every worker publishes the start time
+/// of the call in progress; a monitor thread ends the process with exit code 3 and a `HANG` line naming the
+/// case if one call runs longer than HANG_SECONDS. (A call inside a ticked loop can never get there: the
+/// iteration budget unwinds it first.)
+pub const HANG_SECONDS: u64 = 20;
+pub struct Slot {
+    pub started_ms: std::sync::atomic::AtomicU64,
+    /// the call in progress, as plain numbers (formatted only if the watchdog fires)
+    pub w: [std::sync::atomic::AtomicU64; 7],
+}
+static SLOTS: std::sync::Mutex<Vec<std::sync::Arc<Slot>>> = std::sync::Mutex::new(Vec::new());
+static EPOCH: std::sync::OnceLock<std::time::Instant> = std::sync::OnceLock::new();
+fn now_ms() -> u64 {
+    EPOCH.get_or_init(std::time::Instant::now).elapsed().as_millis() as u64 + 1
+}
+thread_local! {
+    static MY_SLOT: std::sync::Arc<Slot> = {
+        let s = std::sync::Arc::new(Slot { started_ms: std::sync::atomic::AtomicU64::new(0), w: Default::default() });
+        SLOTS.lock().unwrap().push(s.clone());
+        s
+    };
+}
+fn pack(l: Layout) -> u64 {
+    (l.w as u64) << 16 | (l.frac as u64) << 1 | l.signed as u64
+}
+fn unpack(x: u64) -> Layout {
+    Layout::new((x >> 16) as u32, ((x >> 1) & 0x7fff) as u32, x & 1 == 1)
+}
+/// publish the call about to be made: function index into FUNCS, layouts, operands (second operand: raw bits or the i32 exponent)
+#[inline]
+pub fn announce(fi: usize, s: Layout, d: Layout, a: u128, b: u128) {
+    use std::sync::atomic::Ordering::Relaxed;
+    MY_SLOT.with(|sl| {
+        sl.w[0].store(fi as u64, Relaxed);
+        sl.w[1].store(pack(s), Relaxed);
+        sl.w[2].store(pack(d), Relaxed);
+        sl.w[3].store(a as u64, Relaxed);
+        sl.w[4].store((a >> 64) as u64, Relaxed);
+        sl.w[5].store(b as u64, Relaxed);
+        sl.w[6].store((b >> 64) as u64, Relaxed);
+    });
+}
+fn slot_case(s: &Slot) -> String {
+    use std::sync::atomic::Ordering::Relaxed;
+    let g = |i: usize| s.w[i].load(Relaxed);
+    let fi = g(0) as usize;
+    let (sl, dl) = (unpack(g(1)), unpack(g(2)));
+    let a = (g(4) as u128) << 64 | g(3) as u128;
+    let b = (g(6) as u128) << 64 | g(5) as u128;
+    match fi {
+        4 => format!("trans pow {} {} {:#x} {:#x}", sl.name(), dl.name(), a, b),
+        5 => format!("trans powi {} {} {:#x} {}", sl.name(), dl.name(), a, b as u32 as i32),
+        _ => format!("trans {} {} {} {:#x}", FUNCS[fi], sl.name(), dl.name(), a),
+    }
+}
+fn start_watchdog() {
+    now_ms();
+    std::thread::spawn(|| loop {
+        std::thread::sleep(std::time::Duration::from_millis(500));
+        let now = now_ms();
+        for s in SLOTS.lock().unwrap().iter() {
+            let st = s.started_ms.load(std::sync::atomic::Ordering::Relaxed);
+            if st != 0 && now > st + HANG_SECONDS * 1000 {
+                println!("HANG case={} seconds={}", slot_case(s), (now - st) / 1000);
+                use std::io::Write;
+                let _ = std::io::stdout().flush();
+                std::process::exit(3);
+            }
+        }
+    });
+}
+
 fn budget_call<R>(limit: u64, f: impl FnOnce() -> R) -> (Option<R>, u64, bool) {
     verif::reset(limit);
+    MY_SLOT.with(|s| s.started_ms.store(now_ms(), std::sync::atomic::Ordering::Relaxed));
     let r = subject(f);
+    MY_SLOT.with(|s| s.started_ms.store(0, std::sync::atomic::Ordering::Relaxed));
     let t = verif::ticks();
     verif::reset(u64::MAX);
     let cut = r.is_none() && t > limit;
@@ -107,6 +181,7 @@ macro_rules! spair {
             s: <$S as Lay>::LAYOUT,
             d: <$D as Lay>::LAYOUT,
             f1: |func, a| {
+                announce(func, <$S as Lay>::LAYOUT, <$D as Lay>::LAYOUT, a, 0);
                 let x = <$S as Lay>::from_raw(a);
                 Some(match func {
                     0 => run_res::<$D, _>(|| tr::sqrt::<$S, $D>(x)),
@@ -116,10 +191,12 @@ macro_rules! spair {
                 })
             },
             pow: Some(|a, b| {
+                announce(4, <$S as Lay>::LAYOUT, <$D as Lay>::LAYOUT, a, b);
                 let (x, y) = (<$S as Lay>::from_raw(a), <$S as Lay>::from_raw(b));
                 run_res::<$D, _>(|| tr::pow::<$S, $D>(x, y))
             }),
             powi: Some(|a, n| {
+                announce(5, <$S as Lay>::LAYOUT, <$D as Lay>::LAYOUT, a, n as u32 as u128);
                 let x = <$S as Lay>::from_raw(a);
                 run_res::<$D, _>(|| tr::powi::<$S, $D>(x, n))
             }),
@@ -132,6 +209,7 @@ macro_rules! upair {
             s: <$S as Lay>::LAYOUT,
             d: <$D as Lay>::LAYOUT,
             f1: |func, a| {
+                announce(func, <$S as Lay>::LAYOUT, <$D as Lay>::LAYOUT, a, 0);
                 let x = <$S as Lay>::from_raw(a);
                 match func {
                     0 => Some(run_res::<$D, _>(|| tr::sqrt::<$S, $D>(x))),
@@ -148,6 +226,7 @@ macro_rules! trig {
         Trig {
             t: <$T as Lay>::LAYOUT,
             f: |func, a| {
+                announce(6 + func, <$T as Lay>::LAYOUT, <$T as Lay>::LAYOUT, a, 0);
                 let x = <$T as Lay>::from_raw(a);
                 match func {
                     0 => run_val::<$T>(|| tr::sin::<$T>(x)),
@@ -948,6 +1027,7 @@ fn cmd_replay(a: &[String]) -> i32 {
 
 fn main() {
     vcore::par::install_hook();
+    start_watchdog();
     let args = Args::from_env();
     match args.cmd() {
         "run" => cmd_run(&args),
